@@ -75,6 +75,25 @@ class G:
             if len(ds) == 1 and ds[0][0] == "stmt" and ds[0][3][0] == "discr":
                 pl = ds[0][3][1]
                 res = (pl[0], tuple(pl[1]))
+            elif ds and all(d[0] == "stmt" and d[4] and d[3][0] == "use" and d[3][1][0] == "k" and "v" in d[3][1][1] for d in ds):
+                # a flag local only ever assigned constants (`matches!`, drop flags): track its value
+                res = (l, ("const",))
+        cache[bb] = res
+        return res
+
+    def const_sets(self, bb):
+        """[(place key, value)] for constant assignments to flag locals in block bb (last wins)."""
+        cache = self.__dict__.setdefault("_csets", {})
+        if bb in cache:
+            return cache[bb]
+        out = {}
+        for s in self.fn["blocks"][bb]["s"]:
+            if s[0] == "=" and not s[1][1] and s[2][0] == "use" and s[2][1][0] == "k" and "v" in s[2][1][1]:
+                l = s[1][0]
+                ds = self.defs().get(l, [])
+                if ds and all(d[0] == "stmt" and d[4] and d[3][0] == "use" and d[3][1][0] == "k" and "v" in d[3][1][1] for d in ds):
+                    out[(l, ("const",))] = int(s[2][1][1]["v"])
+        res = list(out.items())
         cache[bb] = res
         return res
 
@@ -131,6 +150,9 @@ class G:
             if b in avoid_blocks:
                 continue
             k = frozenset(x for x in k if x[0][0] not in self.kills(b))
+            cs = self.const_sets(b)
+            if cs:
+                k = frozenset(x for x in k if x[0] not in dict(cs)) | frozenset((pk, ("is", v)) for pk, v in cs)
             work.append(((b, k), None))
         blocks = {}
         while work:
@@ -151,6 +173,9 @@ class G:
                 kl = self.kills(tb)
                 if kl:
                     k2 = frozenset(x for x in k2 if x[0][0] not in kl)
+                cs = self.const_sets(tb)
+                if cs:
+                    k2 = frozenset(x for x in k2 if x[0] not in dict(cs)) | frozenset((pk, ("is", v)) for pk, v in cs)
                 st2 = (tb, k2)
                 if st2 not in seen:
                     work.append((st2, st))
@@ -165,6 +190,32 @@ class G:
             out.append(st[0])
             st = seen.get(st)
         return out[::-1]
+
+    def can_return(self):
+        """Blocks from which a `return` is reachable (others end in panic/abort/unreachable)."""
+        cr = self.__dict__.get("_canret")
+        if cr is None:
+            cr = set()
+            work = [i for i, b in enumerate(self.fn["blocks"]) if b["t"][0] == "ret" and not b.get("c")]
+            while work:
+                b = work.pop()
+                if b in cr:
+                    continue
+                cr.add(b)
+                for p, _ in self.pred[b]:
+                    if p not in cr:
+                        work.append(p)
+            self.__dict__["_canret"] = cr
+        return cr
+
+    def is_assertion_edge(self, b, t):
+        """Edge b->t is the passing side of an assertion: every other real successor of b diverges."""
+        sib = [x for x, _ in self.succ[b] if x != t]
+        real = [x for x in sib if not (self.fn["blocks"][x]["t"][0] == "unreachable" and not self.fn["blocks"][x]["s"])]
+        if not real:
+            return False
+        cr = self.can_return()
+        return all(x not in cr for x in real)
 
     def reachable_blocks(self):
         if self._reach0 is None:
@@ -680,6 +731,9 @@ def edge_facts(db, fn, bb, tb, label):
 def all_edge_facts(db, fn):
     """[(bb, tb, label, facts)] for every switch edge of fn."""
     g = graph(fn)
+    cached = g.__dict__.get("_aef")
+    if cached is not None and cached[0] is db:
+        return cached[1]
     res = []
     for bb in range(g.n):
         t = fn["blocks"][bb]["t"]
@@ -687,6 +741,7 @@ def all_edge_facts(db, fn):
             continue
         for tb, lab in g.succ[bb]:
             res.append((bb, tb, lab, edge_facts(db, fn, bb, tb, lab)))
+    g.__dict__["_aef"] = (db, res)
     return res
 
 
